@@ -6,7 +6,8 @@
    img D g off x = red (g (x + off) - off)   [what expandPosition computes for sgoffset = off]. *)
 From Coq Require Import ZArith List Bool Permutation.
 From DS Require Import Base.ZMat Base.SGDefs Model.GroupCheck Model.C02_Orbit Model.C02_Eps Model.C02_Gen Model.C02_EpsTol Gen.SGTables.
-From DS Require Import Proofs.C02_Action Proofs.C02_Expand Proofs.C02_OrbitStab Proofs.C02_EpsSound Proofs.C02_NearSpecial Proofs.C02_GenSound Proofs.C02_GenCheck Proofs.C02_Metric Proofs.C02_EpsTol Proofs.C02_All.
+From DS Require Import Proofs.C02_Action Proofs.C02_Expand Proofs.C02_OrbitStab Proofs.C02_EpsSound Proofs.C02_NearSpecial Proofs.C02_GenSound Proofs.C02_GenCheck Proofs.C02_Metric Proofs.C02_EpsTol
+  Proofs.C02_NearSpecialTol Proofs.C02_GenSoundTol Proofs.C02_GenCheckTol Proofs.C02_All.
 Open Scope Z_scope.
 
 (* For ANY operation list that is a group modulo lattice translations (the C03 predicate), any modulus D > 0
@@ -238,3 +239,111 @@ Theorem C02_mismatched_tolerances_merge :
   snd (expand_exact D G off x) = 2%nat.
 Proof. exact mismatched_tolerances_merge. Qed.
 Print Assumptions C02_mismatched_tolerances_merge.
+
+(* ==== round 4: the near-special, snap and ExpandAsymmetricUnit theorems for ANY well-formed tolerances ====
+   T ranges over pairs (caller's eps, bin width); `tol_of eps` is such a pair for every eps argument in [0,1).
+   within_tol_t T : images of x belonging to one image of x0 are within the CALLER'S eps of each other;
+   between_far_t T : images belonging to different images of x0 are farther apart than BOTH tolerances. *)
+
+Theorem C02_eps_near_special_any_tolerance : forall T D G off x x0, tol_wf T -> IsGroup G -> 0 < D -> (12 | D) ->
+  within_tol_t T D G off x x0 -> between_far_t T D G off x x0 ->
+  let '(pos0, ops0, m0) := expand_exact D G off x0 in
+  expand_eps_t T D G off x = (map (rep_of_t D off x) ops0, ops0, m0) /\
+  hd_error (map (rep_of_t D off x) ops0) = Some (red D x) /\
+  (forall l, In l ops0 -> exists g, In g l /\ rep_of_t D off x l = img D g off x) /\
+  attribution_ok D G off x0 pos0 ops0 /\ Permutation (concat ops0) G /\
+  (m0 * List.length (stab D G off x0))%nat = List.length G.
+Proof. exact near_special_spec_t. Qed.
+Print Assumptions C02_eps_near_special_any_tolerance.
+
+Theorem C02_eps_near_special_any_tolerance_all_settings : forall T s D off x x0, tol_wf T -> In s all_settings -> 0 < D -> (12 | D) ->
+  within_tol_t T D (sg_ops s) off x x0 -> between_far_t T D (sg_ops s) off x x0 ->
+  let G := sg_ops s in
+  let '(pos0, ops0, m0) := expand_exact D G off x0 in
+  expand_eps_t T D G off x = (map (rep_of_t D off x) ops0, ops0, m0) /\
+  hd_error (map (rep_of_t D off x) ops0) = Some (red D x) /\
+  (forall l, In l ops0 -> exists g, In g l /\ rep_of_t D off x l = img D g off x) /\
+  attribution_ok D G off x0 pos0 ops0 /\ Permutation (concat ops0) G /\
+  (m0 * List.length (stab D G off x0))%nat = List.length G.
+Proof. exact near_special_spec_t_tabulated. Qed.
+Print Assumptions C02_eps_near_special_any_tolerance_all_settings.
+
+Theorem C02_near_from_metric_any_tolerance : forall T D G off x x0 tau M, tol_wf T -> 0 < D ->
+  (forall o, In o G -> entries_ok o = true) ->
+  vnorm_le tau (vsub x x0) -> 6 * tau * tq_den T <= tq_num T * D ->
+  (forall g h, In g G -> In h G -> img D g off x0 <> img D h off x0 -> M <= boxdist D (img D g off x0) (img D h off x0)) ->
+  tq_num T * D < tq_den T * (M - 6 * tau) -> tb_num T * D < tb_den T * (M - 6 * tau) ->
+  within_tol_t T D G off x x0 /\ between_far_t T D G off x x0.
+Proof. exact near_from_metric_t. Qed.
+Print Assumptions C02_near_from_metric_any_tolerance.
+
+(* GeneratorSite(..., eps) *)
+Theorem C02_snap_identity_any_tolerance : forall T D G off x, tol_wf T -> IsGroup G -> 0 < D -> (12 | D) ->
+  separated_t T D G off x ->
+  generator_site_t T D G off x =
+  let '(pos, ops, m) := expand_exact D G off x in Some (GSite D x off pos ops m (stab D G off x)).
+Proof. exact snap_identity_on_exact_sites_t. Qed.
+Print Assumptions C02_snap_identity_any_tolerance.
+
+Theorem C02_snap_fixes_site_any_tolerance : forall T, tol_wf T -> forall D G off x x0, IsGroup G -> 0 < D -> (12 | D) ->
+  within_tol_t T D G off x x0 -> between_far_t T D G off x x0 ->
+  let S := stab D G off x0 in let n := Z.of_nat (List.length S) in
+  (forall h, In h S -> small_v D (vsub (mvec (fst h) (vsub x x0)) (vsub x x0))) ->
+  (1 < List.length S)%nat ->
+  let xs := snapped D G off x x0 in
+  xs <> vscale n x -> zero_small_t T (D * n) xs = xs -> separated_t T (D * n) G (vscale n off) xs ->
+  generator_site_t T D G off x =
+    (let '(pos, ops, m) := expand_exact (D * n) G (vscale n off) xs in
+     Some (GSite (D * n) xs (vscale n off) pos ops m (stab (D * n) G (vscale n off) xs)))
+  /\ incl S (stab (D * n) G (vscale n off) xs).
+Proof. exact snap_fixes_site_t. Qed.
+Print Assumptions C02_snap_fixes_site_any_tolerance.
+
+Theorem C02_snap_fixes_site_any_tolerance_all_settings : forall T s D off x x0, tol_wf T -> In s all_settings -> 0 < D -> (12 | D) ->
+  snap_hyps_tb T D (sg_ops s) off x x0 = true ->
+  let G := sg_ops s in
+  let n := Z.of_nat (List.length (stab D G off x0)) in
+  let xs := snapped_site D G off x x0 in
+  generator_site_t T D G off x =
+    (let '(pos, ops, m) := expand_exact (D * n) G (vscale n off) xs in
+     Some (GSite (D * n) xs (vscale n off) pos ops m (stab (D * n) G (vscale n off) xs)))
+  /\ incl (stab D G off x0) (stab (D * n) G (vscale n off) xs).
+Proof. exact snap_fixes_tabulated_t. Qed.
+Print Assumptions C02_snap_fixes_site_any_tolerance_all_settings.
+
+Theorem C02_snapped_invariants_any_tolerance : forall T D G off x x0, IsGroup G -> 0 < D -> (12 | D) ->
+  within_tol_t T D G off x x0 -> between_far_t T D G off x x0 ->
+  let S := stab D G off x0 in let n := Z.of_nat (List.length S) in let xs := snapped D G off x x0 in
+  (forall h, In h S -> small_v D (vsub (mvec (fst h) (vsub x x0)) (vsub x x0))) ->
+  (1 < List.length S)%nat ->
+  (forall g, In g G -> img D g off x0 <> red D x0 -> img (D * n) g (vscale n off) xs <> red (D * n) xs) ->
+  stab (D * n) G (vscale n off) xs = S.
+Proof. exact snapped_invariants_are_stab_x0_t. Qed.
+Print Assumptions C02_snapped_invariants_any_tolerance.
+
+Theorem C02_snap_keeps_invariant_site_any_tolerance : forall T, tol_wf T -> forall D G off x x0, IsGroup G -> 0 < D -> (12 | D) ->
+  within_tol_t T D G off x x0 -> between_far_t T D G off x x0 ->
+  let S := stab D G off x0 in let n := Z.of_nat (List.length S) in
+  (forall h, In h S -> small_v D (vsub (mvec (fst h) (vsub x x0)) (vsub x x0))) ->
+  (1 < List.length S)%nat -> snapped D G off x x0 = vscale n x ->
+  generator_site_t T D G off x =
+  let '(pos0, ops0, m0) := expand_exact D G off x0 in Some (GSite D x off (map (rep_of_t D off x) ops0) ops0 m0 S).
+Proof. exact snap_keeps_invariant_site_t. Qed.
+Print Assumptions C02_snap_keeps_invariant_site_any_tolerance.
+
+(* ExpandAsymmetricUnit(..., eps) = one GeneratorSite(..., eps) per core position *)
+Theorem C02_expand_asym_any_tolerance : forall T D G off sites, tol_wf T -> IsGroup G -> 0 < D -> (12 | D) ->
+  (forall y, In y sites -> separated_t T D G off y) ->
+  expand_asym_t T D G off sites =
+  Some (Asym (map (fun y => snd (expand_exact D G off y)) sites)
+             (map (fun y => (D, fst (fst (expand_exact D G off y)))) sites)).
+Proof. exact expand_asym_exact_sites_t. Qed.
+Print Assumptions C02_expand_asym_any_tolerance.
+
+(* with eps = 0, for every tabulated setting, ExpandAsymmetricUnit is exact on EVERY list of sites *)
+Theorem C02_expand_asym_eps_zero_all_settings : forall s D off sites, In s all_settings -> 0 < D -> (12 | D) ->
+  expand_asym_t (tol_of (Some (0, 1))) D (sg_ops s) off sites =
+  Some (Asym (map (fun y => snd (expand_exact D (sg_ops s) off y)) sites)
+             (map (fun y => (D, fst (fst (expand_exact D (sg_ops s) off y)))) sites)).
+Proof. exact expand_asym_eps_zero. Qed.
+Print Assumptions C02_expand_asym_eps_zero_all_settings.
